@@ -102,6 +102,29 @@ S cos_6(const S & x2)
   }
 }
 
+/**
+ * @brief Compute (1 - (x / 2) cot(x / 2)) / x^2 = 1 / x^2 - (1 + cos x) / (2 x sin x).
+ *
+ * The half-angle form avoids the 0 / 0 cancellation of (1 + cos x) / sin x close to x = pi, and
+ * the series (coefficients |B_2k| / (2k)!) avoids the cancellation for small x.
+ */
+template<typename S>
+S cot_2(const S & x2)
+{
+  using std::cos, std::sin, std::sqrt;
+
+  if (x2 > S(0.25)) {
+    const S x = sqrt(x2);
+    return (S(1) - (x / S(2)) * cos(x / S(2)) / sin(x / S(2))) / x2;
+  } else {
+    // clang-format off
+    return S(1) / S(12) + x2 * (S(1) / S(720) + x2 * (S(1) / S(30240) + x2 * (S(1) / S(1209600)
+      + x2 * (S(1) / S(47900160) + x2 * (S(691) / S(1307674368000.) + x2 * (S(1) / S(74724249600.)
+      + x2 * (S(3617) / S(10670622842880000.))))))));
+    // clang-format on
+  }
+}
+
 }  // namespace detail
 
 SMOOTH_END_NAMESPACE
